@@ -980,6 +980,9 @@ pub fn run_history(cfg: &Cfg, kt: KeyType, ops: &[Op], opts: &RunOpts, cov: &mut
             // sweep
             if checking {
                 let pr = probes.as_ref().unwrap();
+                if let Some(a) = &pr.alias {
+                    viol!("C02", "borrowed-forms-disagree", i, op, pc, "{} (after {})", a, op);
+                }
                 for (ui, k) in uni.iter().enumerate() {
                     let (c1, c2) = pr.contains[ui];
                     let (p1, p2) = pr.peek[ui];
